@@ -208,9 +208,9 @@ fn build_binary_op(
         }
         let ctor_args = build_ctor_args(&item.fields, &values);
         let wheres = wcb.build(|ty| match (lhs_is_ref, rhs_is_ref) {
-            (true, true) => quote!(for<'a> &'a #ty : #trait_<&'a #ty, Output = #ty>),
-            (true, false) => quote!(for<'a> &'a #ty : #trait_<#ty, Output = #ty>),
-            (false, true) => quote!(for<'a> #ty : #trait_<&'a #ty, Output = #ty>),
+            (true, true) => quote!(for<'__a> &'__a #ty : #trait_<&'__a #ty, Output = #ty>),
+            (true, false) => quote!(for<'__a> &'__a #ty : #trait_<#ty, Output = #ty>),
+            (false, true) => quote!(for<'__a> #ty : #trait_<&'__a #ty, Output = #ty>),
             (false, false) => quote!(#ty : #trait_<#ty, Output = #ty>),
         });
         quote! {
@@ -260,7 +260,7 @@ fn build_assign_op(
             field.push_bounds_to(use_bounds, kind, &mut wcb);
         }
         let wheres = wcb.build(|ty| match rhs_is_ref {
-            true => parse_quote!(for<'a> #ty : #trait_<&'a #ty>),
+            true => parse_quote!(for<'__a> #ty : #trait_<&'__a #ty>),
             false => parse_quote!(#ty : #trait_<#ty>),
         });
         quote! {
@@ -307,7 +307,7 @@ fn build_unary_op(
         }
         let ctor_args = build_ctor_args(&item.fields, &values);
         let wheres = wcb.build(|ty| match lhs_is_ref {
-            true => quote!(for<'a> &'a #ty : #trait_<Output = #ty>),
+            true => quote!(for<'__a> &'__a #ty : #trait_<Output = #ty>),
             false => quote!(#ty : #trait_<Output = #ty>),
         });
         quote! {
